@@ -1,5 +1,5 @@
 (* C13 — Per-block receipts, indices, cumulative gas and bloom are mutually consistent. *)
-From Evm Require Import TxPipe TxPipeExt TxPipeProofs.
+From Evm Require Import TxPipe TxPipeExt TxPipeProofs TxPipeDenom TxPipeDenomProofs.
 Open Scope Z_scope.
 
 (* For the Ethereum transaction at ANY position of ANY block (items before it: [pre]): if it reached execution
@@ -90,3 +90,32 @@ Example C13_example_receipt :
   rx 0 (mkOut 90000 true 0 [] 0 false) [] = Some (mkRext None []) /\
   rx (10^18) (mkOut 60000 false 0 [] 0 false) [] = None.
 Proof. vm_compute. repeat split; reflexivity. Qed.
+
+(* ------------------------------------------------------------------ blocks containing executions aborted by a panic
+   (Model/TxPipeExt.v deliver_panic): such a transaction reached execution - it owns the next index - and has no receipt;
+   the receipts after it count its whole gas limit in their cumulative gas, and no log *)
+Theorem C13_x_block_numbering : forall s l pre x post,
+  tx_count (d_core s) = 0 -> cum_gas (d_core s) = 0 -> log_count (d_core s) = 0 ->
+  xtrace s l = pre ++ x :: post ->
+  let '(_, _, o, r) := x in
+  let '(n, g, lg) := shown_before pre in
+  (passed (r_out r) = true -> r_tx_index r = n) /\
+  (forall v, r_out r = Executed v -> r_cum_gas r = g + gas_shown r /\ r_log_start r = lg).
+Proof. exact x_block_numbering. Qed.
+Print Assumptions C13_x_block_numbering.
+
+Theorem C13_aborted_no_receipt : forall s t gu ca ls, receipt_ext t ca ls (snd (deliver_panic s t gu)) = None.
+Proof. exact panic_no_receipt. Qed.
+Print Assumptions C13_aborted_no_receipt.
+
+(* non-vacuity: three transactions, the middle one aborted: indices 0,1,2; cumulative 21000, -, 21000+30000+25000; logs 0.., 2.. *)
+Example C13_example_aborted :
+  let c := mkSt (fun a => if a =? 7 then 10^18 else 0) (fun _ => 0) (fun a => a =? 7) (fun _ => false)
+                (5 * 10^18) 1000 0 0 0 0 0 0 false false in
+  let s := mkDst (begin_block c) (mkLedger (fun _ _ => 0) (fun _ => 0)) in
+  let t n g := mkTx 7 (Some 7) true false 2000 0 0 g n 0 false 21000 in
+  let rs := snd (xrun s [XItem (DEth (t 0 50000) (mkOut 21000 false 2 [] 0 false) (mkDx [] []));
+                         XPanic (t 1 30000) 0;
+                         XItem (DEth (t 2 60000) (mkOut 25000 false 1 [] 0 false) (mkDx [] []))]) in
+  map (fun r => (r_tx_index r, r_cum_gas r, r_log_start r)) rs = [(0, 21000, 0); (1, -1, -1); (2, 76000, 2)].
+Proof. vm_compute. reflexivity. Qed.
